@@ -447,7 +447,8 @@ for _rn, (_cls, _T, _L) in c03.RATES.items():
 # which field's bits may be re-chosen to reach a wanted check value
 FREE_FIELD = {"pi_header": "data", "slc_activity_update": "ts2_address", "slc_null": None}
 CHECK_TARGETS_QUICK = ["plain", "first_only"]
-CHECK_TARGETS_THOROUGH = ["plain", "first_only", "last_only", "zero", "first_and_last", "weight3", "all_ones"]
+CHECK_TARGETS_THOROUGH = ["plain", "first_only", "last_only", "zero", "weight3"]
+CHECK_TARGETS_SHORT_LC = ["plain", "first_only", "last_only", "zero", "first_and_last", "weight3", "all_ones"]
 
 
 def target_pattern(label, w):
@@ -614,8 +615,9 @@ def w_sweep(task):
 
 
 def corruption_family(rep, nw, sub, names, labels, burst_w, k, note):
-    bw = {l: burst_w(l) for l in labels}
-    s = rep.sub(sub, f"per kind {names}: fixed base PDUs (check-field patterns -> max burst length: {bw}) x the error-free case, ALL "
+    bw = {(n_, l): burst_w(n_, l) for n_ in names for l in labels}
+    bw_txt = {f"{n_}/{l}": v for (n_, l), v in bw.items()}
+    s = rep.sub(sub, f"fixed base PDUs per kind (kind/check-field pattern -> max burst length: {bw_txt}) x the error-free case, ALL "
                      f"bursts up to that length at every position and ALL patterns of weight <= {k} that are not such bursts, over all "
                      f"PDU bits incl. the check field. {note} Non-trivial: pattern whose polynomial is not a multiple of the generator.")
     tasks = []
@@ -627,7 +629,7 @@ def corruption_family(rep, nw, sub, names, labels, burst_w, k, note):
         bases_used[name] = [b[0] for b in bl]
         n = p.kind.length
         for blabel, bits in bl:
-            w_burst = bw[blabel]
+            w_burst = bw[(name, blabel)]
             SWEEP[(name, blabel)] = bits
             tasks.append((name, blabel, "none", 0, 0, w_burst, k))
             tasks += [(name, blabel, "burst", lo, hi, w_burst, k) for lo, hi in par.chunks(n, n)]
@@ -853,20 +855,20 @@ def run(only=None):
     if want("corruption_data_header"):
         corruption_family(rep, nw, "corruption_data_header",
                           ["dh_confirmed", "dh_unconfirmed", "dh_response", "dh_short_data_defined", "dh_udt"], labels,
-                          (lambda l: 16 if l == "first_only" else 10) if thorough else (lambda l: 9), k,
-                          "CRC-CCITT, 96 bits.")
+                          (lambda n_, l: (16 if n_ in ("dh_confirmed", "dh_unconfirmed") else 12) if l == "first_only" else 10)
+                          if thorough else (lambda n_, l: 9), k, "CRC-CCITT, 96 bits.")
     if want("corruption_pi_header"):
         corruption_family(rep, nw, "corruption_pi_header", ["pi_header"], labels,
-                          (lambda l: 16 if l == "first_only" else 10) if thorough else (lambda l: 10), k,
+                          (lambda n_, l: 16 if l == "first_only" else 10) if thorough else (lambda n_, l: 10), k,
                           "CRC-CCITT, 96 bits.")
     if want("corruption_short_lc"):
-        corruption_family(rep, nw, "corruption_short_lc", ["slc_null", "slc_activity_update"], CHECK_TARGETS_THOROUGH,
-                          lambda l: 8, 3, "CRC-8, 36 bits (identical in both tiers).")
+        corruption_family(rep, nw, "corruption_short_lc", ["slc_null", "slc_activity_update"], CHECK_TARGETS_SHORT_LC,
+                          lambda n_, l: 8, 3, "CRC-8, 36 bits (identical in both tiers).")
     if want("corruption_rate_blocks"):
         corruption_family(rep, nw, "corruption_rate_blocks",
                           [f"{rn}_{v}" for rn in c03.RATES for v in ("confirmed", "confirmed_last")],
-                          labels if not thorough else ["plain", "first_only", "last_only", "zero", "weight3"],
-                          lambda l: 9, k, "CRC-9, 96/144/192 bits.")
+                          labels if not thorough else ["plain", "first_only", "zero"],
+                          lambda n_, l: 9, k, "CRC-9, 96/144/192 bits.")
 
     # ---- 4 ------------------------------------------------------------------------------------
     if want("crc9_last_block_crc32_single_bit"):
@@ -910,9 +912,9 @@ def run(only=None):
     rep.bounds = {
         "fec_words": "all 2^20 slot-type and all 2^16 EMB words",
         "encoded": "C03 field spaces of the 14 protected kinds (+ slot type 208, EMB 128, HRNP 911 + all 2^16 packet numbers)",
-        "crc16_sweeps": ("weight <= 3 on 7 bases per kind; bursts <= 16 at every position on 1 base per kind (single leading check bit set), <= 10 on the others"
+        "crc16_sweeps": ("weight <= 3 on 5 bases per kind; all bursts <= 16 at every position on the 'single leading check bit' base of dh_confirmed, dh_unconfirmed and pi_header (<= 12 on that base of the other three headers), <= 10 on all other bases"
                          if thorough else "weight <= 2 on 2 bases per kind, bursts <= 9 (data headers) / <= 10 (PI header) at every position (longer bursts, up to 16, only in the thorough tier)"),
-        "crc9_sweeps": "weight <= %d and all bursts <= 9 on %d bases per kind" % (k, 5 if thorough else 2),
+        "crc9_sweeps": "weight <= %d and all bursts <= 9 on %d bases per kind" % (k, 3 if thorough else 2),
         "crc8_sweeps": "weight <= 3 and all bursts <= 8 on up to 7 bases per kind",
         "hrnp": "single-bit and single aligned word errors (159 xor patterns per word)",
         "not_covered": "error patterns of weight > 3 that are not short bursts; PDUs other than the fixed bases in the fault sweeps",
